@@ -421,6 +421,58 @@ func runC04(c *eng.Ctx, thorough bool) {
 		}
 	}
 
+	// ---- C04.7b the walk acts on each node in that node's own namespace: the context handed to
+	// revokeInternal (and to the parent-index list/delete) is the one adjusted to the namespace encoded
+	// in the node's id; with the tree's context a descendant in another namespace is looked up in the
+	// wrong namespace, "not found", unlinked and left usable (seed C04-b)
+	if f := c.Fn("vault.(*TokenStore).revokeTreeInternal"); f != nil {
+		c.Clause("R5", "C04.7")
+		var sites []ssa.CallInstruction
+		sites = append(sites, eng.Calls(f, `vault\.\(\*TokenStore\)\.revokeInternal$`)...)
+		sites = append(sites, eng.Calls(f, `^<barrier\.View>\.(List|Delete)$`)...)
+		n := 0
+		for _, cl := range sites {
+			cc := cl.Common()
+			ctxArg := cc.Args[0]
+			if !cc.IsInvoke() {
+				ctxArg = cc.Args[1]
+			}
+			n++
+			adjusted, other := false, ""
+			for _, o := range eng.Origins(ctxArg) {
+				switch {
+				case o.Kind == "call" && strings.HasSuffix(o.Desc, "namespace.ContextWithNamespace"):
+					adjusted = true
+					// the namespace it is adjusted to is the one named by the node's id
+					if call, ok := o.Val.(*ssa.Call); ok {
+						if ok2, bad, _ := eng.OriginsMatch(call.Call.Args[1], `^call:vault\.\(\*Core\)\.NamespaceByID#0$`); !ok2 {
+							other = "ContextWithNamespace(" + bad + ")"
+						}
+					}
+				case o.Kind == "param":
+				default:
+					other = o.Kind + ":" + o.Desc
+				}
+			}
+			site := "context of " + eng.CalleeName(cc) + " = the node's own namespace"
+			if adjusted && other == "" {
+				c.OK(f, site, cl.Pos(), eng.Expr(ctxArg))
+			} else {
+				c.Violation(f, site, cl.Pos(), "the tree walk hands "+eng.Expr(ctxArg)+" to "+eng.CalleeName(cc)+" ("+other+"): a descendant that lives in another namespace is looked up in the wrong one", nil)
+			}
+		}
+		c.Floor(f, "namespace-sensitive operations of the tree walk", n, 3)
+		for _, nb := range eng.Calls(f, `vault\.\(\*Core\)\.NamespaceByID$`) {
+			a := nb.Common().Args
+			s := eng.Expr(a[len(a)-1])
+			if strings.HasSuffix(s, "SplitIDFromString()#1") || strings.HasSuffix(s, ".NamespaceID") {
+				c.OK(f, "namespace looked up for a node", nb.Pos(), s)
+			} else {
+				c.Violation(f, "namespace looked up for a node", nb.Pos(), "NamespaceByID("+s+") is not the namespace part of the node id", nil)
+			}
+		}
+	}
+
 	// ---- C04.7 tree walk
 	if f := c.Fn("vault.(*TokenStore).revokeTreeInternal"); f != nil {
 		c.Clause("R3", "C04.7")
